@@ -143,6 +143,21 @@ def main(ctx):
             viol('verilog-string-separators', 'infer_val_and_bitwidth(%r) -> %s %r; the digits denote %r' % (
                 s_, st, None if r is None else tuple(r), (v, bw)), {'string': s_})
             break
+    # a width given twice -- in the string and as the bitwidth argument: accepted exactly when the two agree, at any width
+    for _ in range(ctx.n(120, 1200)):
+        bw = rng.choice([rng.randint(1, 16), rng.randint(17, 300), rng.randint(257, 1030)])
+        v = rng.getrandbits(bw)
+        s_ = "%d'%s" % (bw, rng.choice([('d%d' % v), ('h%x' % v), ('b' + bin(v)[2:])]))
+        passed = bw if rng.random() < 0.7 else rng.choice([bw + 1, max(1, bw - 1) if bw > 1 else 2, 2 * bw])
+        ctx.evaluations += 1
+        for what, fn in (('infer_val_and_bitwidth', lambda: tuple(hf.infer_val_and_bitwidth(s_, bitwidth=int(str(passed))))),
+                         ('Const', lambda: (lambda c_: (c_.val, c_.bitwidth))(pyrtl.Const(s_, bitwidth=int(str(passed)))))):
+            st, r = call(fn)
+            if (passed == bw) != (st == 'ok') or (st == 'ok' and r != (v, bw)):
+                viol('verilog-string-with-bitwidth', '%s(%r, bitwidth=%d) -> %s %r; the widths %s, the string denotes %r' % (
+                    what, s_[:40], passed, st, r, 'agree' if passed == bw else 'disagree', (v, bw)), {'string': s_, 'bitwidth': passed})
+                break
+        ctx.count('verilog-string-with-bitwidth', 'agree' if passed == bw else 'disagree')
     for s, want in (("8'B 0110_1100", (108, 8)), ("5'b10", (2, 5)), ("12'hFf", (255, 12)), ("4's3", None), ("3", None), ("4'", None)):
         st, r = call(hf.infer_val_and_bitwidth, s)
         if (want is None) != (st != 'ok') or (want and tuple(r) != want):
